@@ -15,7 +15,40 @@ fn rd(r: Result<Option<u32>, core::convert::Infallible>) -> u64 { match r { Ok(S
 macro_rules! cmp { ($rep:expr, $case:expr, $ty:expr, $op:expr, $got:expr, $exp:expr) => {{ $rep.checks += 1; let g = $got; if g != $exp { $rep.mismatch($case, format!("{} {}: impl (result, buf, pos) = {:?}, spec {:?}", $ty, $op, g, $exp)); } }} }
 macro_rules! cmpn { ($rep:expr, $case:expr, $ty:expr, $op:expr, $got:expr, $exp:expr) => {{ $rep.checks += 1; let g = $got; if g != $exp { $rep.mismatch($case, format!("{} {} = {:?}, spec {:?}", $ty, $op, g, $exp)); } }} }
 
+/// iterator adapters over a source that is NOT fused (yields None and later words again): end-of-data must be sticky
+pub fn adapters_case(case: &Value, rep: &mut Report) {
+    for src in case["sources"].as_array().unwrap() {
+        let s: Vec<u32> = src["src"].as_array().unwrap().iter().map(|x| x.as_u64().unwrap() as u32).collect();
+        let exp: Vec<u64> = src["reads"].as_array().unwrap().iter().map(|x| x.as_u64().unwrap()).collect();
+        let r = guarded(|| {
+            let mut out = vec![];
+            let unfused = |s: Vec<u32>| { let mut i = 0usize; std::iter::from_fn(move || { let r = s.get(i).and_then(|w| if *w == 0 { None } else { Some(*w) }); i += 1; r }) };
+            { let mut b = FallibleIteratorReadWords::new(unfused(s.clone()).map(Ok::<u32, ()>));
+              let got: Vec<u64> = exp.iter().map(|_| match ReadWords::<u32, Stack>::read(&mut b) { Ok(Some(w)) => w as u64, Ok(None) => EOF, Err(()) => 999 }).collect();
+              if got != exp { out.push(format!("FallibleIteratorReadWords over source {:?} (0 = None): reads {:?}, spec {:?}", s, got, exp)); } }
+            { let mut b = FallibleIteratorReadWords::new(unfused(s.clone()).map(Ok::<u32, ()>));
+              let got: Vec<u64> = exp.iter().map(|_| match ReadWords::<u32, Queue>::read(&mut b) { Ok(Some(w)) => w as u64, Ok(None) => EOF, Err(()) => 999 }).collect();
+              if got != exp { out.push(format!("FallibleIteratorReadWords (queue) over source {:?}: reads {:?}, spec {:?}", s, got, exp)); } }
+            // (InfallibleIteratorReadWords::new only accepts iterators over Result, while its ReadWords impl takes the items as words:
+            //  it cannot be constructed for plain word iterators, so there is nothing to drive)
+            // ExactSizeIterator sources: remaining() is exact
+            { let words: Vec<u32> = s.iter().cloned().filter(|w| *w != 0).collect(); let mut b = FallibleIteratorReadWords::new(words.clone().into_iter().map(Ok::<u32, ()>));
+              for k in 0..=words.len() { let rem = BoundedReadWords::<u32, Stack>::remaining(&b); if rem != words.len() - k { out.push(format!("FallibleIteratorReadWords::remaining() = {} with {} words left", rem, words.len() - k)); } let _ = ReadWords::<u32, Stack>::read(&mut b); } }
+            // callback sinks: a failing callback reports the error and nothing is stored; the infallible one stores everything
+            { let mut sink: Vec<u32> = vec![]; let cap = s.len() / 2;
+              { let mut w = FallibleCallbackWriteWords::new(|x: u32| if sink.len() < cap { sink.push(x); Ok(()) } else { Err(()) });
+                for (i, x) in s.iter().enumerate() { let r = w.write(*x); if r.is_ok() != (i < cap) { out.push(format!("FallibleCallbackWriteWords: write {} returned {:?} with capacity {}", i, r, cap)); } } }
+              if sink != s[..cap] { out.push(format!("FallibleCallbackWriteWords stored {:?}, expected {:?}", sink, &s[..cap])); }
+              let mut sink2: Vec<u32> = vec![]; { let mut w = InfallibleCallbackWriteWords::new(|x: u32| sink2.push(x)); for x in &s { w.write(*x).unwrap(); } } if sink2 != s { out.push("InfallibleCallbackWriteWords lost words".into()); } }
+            out
+        });
+        rep.checks += 5; rep.class("adapters");
+        match r { Ok(out) => for d in out { rep.mismatch(case, d); }, Err(m) => rep.mismatch(case, format!("panic: {}", m)) }
+    }
+}
+
 pub fn backend_case(case: &Value, _mode: &str, rep: &mut Report) {
+    if case["k"] == "adapters" { adapters_case(case, rep); return; }
     let kind = case["kind"].as_str().unwrap();
     let buf: Vec<u32> = case["buf"].as_array().unwrap().iter().map(|x| x.as_u64().unwrap() as u32).collect();
     let pos = case["pos"].as_u64().unwrap() as usize;
